@@ -2,5 +2,5 @@
 EXTENDS SubjectTrace
 AnyScript == UNION {[1..n -> [k : {"unsub", "mute", "unmute", "inval", "sub", "notify"}, t : 0..40]] : n \in 0..2}
 NoOrder == <<>>
-AllOps == {"Subscribe", "UnsubH", "UnsubS", "Mute", "Unmute", "Invalidate", "Swap", "Notify"}
+AllOps == {"Subscribe", "SubscribeMuted", "UnsubF", "UnsubH", "UnsubS", "Mute", "Unmute", "Invalidate", "Swap", "Notify"}
 ====
